@@ -178,14 +178,74 @@ pub fn run_documented(ops: &[(Op, Fault)], variant: u64) -> Option<String> {
     None
 }
 
-pub const SHAPE_NAMES: [&str; 5] = ["OneOfThree", "OneOfTwo", "TwoOfThree", "ThreeOfFive", "Documented"];
+/// Narrow / wide numeric field types, crate-private visibility, and excluded fields whose types
+/// are not interpolable at all (a `String`, a `Vec`).
+#[derive(Animate, Clone, Debug, Default, PartialEq)]
+pub(crate) struct Mixed {
+    pub(crate) label: String,
+    #[animate]
+    pub(crate) small: i8,
+    #[animate]
+    wide: f64,
+    history: Vec<u32>,
+    #[animate]
+    pub count: u16,
+    #[animate]
+    big: i64,
+}
+
+pub fn run_mixed(ops: &[(Op, Fault)], variant: u64) -> Option<String> {
+    let initial = Mixed { label: "keep".into(), small: -3, wide: 0.5, history: vec![1, 2, 3], count: 9, big: 1000 };
+    let other = Mixed { label: "foreign".into(), small: 100, wide: -8.25, history: vec![], count: 6000, big: -50000 };
+    let check = |v: &Mixed, what: &str| -> Option<String> {
+        if v.label != initial.label || v.history != initial.history {
+            Some(format!("shape Mixed: {what} changed an excluded field: label {:?} history {:?}", v.label, v.history))
+        } else {
+            None
+        }
+    };
+    let tl = || {
+        Mixed::timeline()
+            .duration_seconds(2.0)
+            .repeat(if variant & 2 == 2 { Repeat::Times(2) } else { Repeat::None })
+            .reverse(variant & 1 == 1)
+            .keyframe(Mixed::keyframe_from(&other, 0.25))
+            .keyframe(Mixed::keyframe(1.0).small(-128).wide(1.0e6).count(65535).big(1 << 20))
+    };
+    let bare = TimelineBuilder::build(tl());
+    for t in [0.0f32, 0.3, 0.5, 1.9, 2.0, 4.1, 50.0] {
+        let mut target = initial.clone();
+        bare.update(&mut target, t);
+        if let Some(d) = check(&target, &format!("Timeline::update at t={t}")) {
+            return Some(d);
+        }
+    }
+    let mut anim = StateAnimatorBuilder::new()
+        .from_state(Sh::B)
+        .from_values(initial.clone())
+        .on(Sh::A, tl())
+        .build();
+    for (i, (op, _)) in ops.iter().enumerate() {
+        match op {
+            Op::Advance(dt) => anim.advance(*dt),
+            Op::SetState(s) => anim.set_state(&SH[*s as usize % 3]),
+        }
+        if let Some(d) = check(anim.current_values(), &format!("operation {i} ({op:?})")) {
+            return Some(d);
+        }
+    }
+    None
+}
+
+pub const SHAPE_NAMES: [&str; 6] = ["OneOfThree", "OneOfTwo", "TwoOfThree", "ThreeOfFive", "Documented", "Mixed"];
 
 pub fn run_shape(which: usize, ops: &[(Op, Fault)], variant: u64) -> Option<String> {
-    match which % 5 {
+    match which % 6 {
         0 => run_one_of_three(ops, variant),
         1 => run_one_of_two(ops, variant),
         2 => run_two_of_three(ops, variant),
         3 => run_three_of_five(ops, variant),
-        _ => run_documented(ops, variant),
+        4 => run_documented(ops, variant),
+        _ => run_mixed(ops, variant),
     }
 }
